@@ -67,14 +67,17 @@ def build_jobs(t: str, sd: int):
     # version pairs: the recipe written for the lowest version, compiled at every later version (default options)
     lows = [(2, "A"), (2, "S"), (5, "A")] if thorough else [(5, "A")]
     for low, mode in lows:
-        fam = gen.control_family(mode, low, False)[:: (1 if thorough else 6)] + gen.operator_sweep(mode, low, False)[:: (1 if thorough else 5)]
+        fam = gen.control_family(mode, low, False) + gen.operator_sweep(mode, low, False)
+        nsampled = len(fam)
         if low >= 4:
             fam += gen_subs.sub_family(mode, low, False)
         base = {"version": low, "optimize": None}
-        for (name, rec, opts) in fam:
-            for v2 in (range(low + 1, 11) if thorough else [6, 8, 10]):
+        for i, (name, rec, opts) in enumerate(fam):
+            for k, v2 in enumerate(range(low + 1, 11) if thorough else [6, 8, 10]):
                 if v2 <= low:
                     continue
+                if not thorough and i < nsampled and i % 3 != k:
+                    continue        # quick: each skeleton / operator program against one later version, rotating
                 add(name, rec, opts, base, {"version": v2, "optimize": None}, ["userslots"])
     # version 4 has its own calling sequence around re-entrant calls (dig instead of cover/uncover):
     # the routine family written for v4 against the same recipe at later versions
